@@ -206,8 +206,32 @@ def mk_param(p, fn):
         function=fn, sources=[fn], source_depths={fn: 0})
 
 
+_SIG_MEMO = {}
+
+
 def mk_sig(d, plain=False):
-    """descriptor -> real UpgradedSignature (or plain inspect.Signature when plain=True)"""
+    """descriptor -> real UpgradedSignature (or plain inspect.Signature when plain=True).
+    Signatures are values: the object made for a descriptor is made once per process and handed to every operation that
+    mentions it, so an operation that leaves hidden state behind on its inputs (a cache, an edited bucket) shows up as a
+    wrong answer of a later request."""
+    try:
+        key = (plain, d['fn'], tuple(d['params']), d['ret'], d['uret'], repr(d.get('src')), repr(d.get('depths')))
+        hash(key)
+    except TypeError:
+        key = None
+    if key is not None:
+        hit = _SIG_MEMO.get(key)
+        if hit is not None:
+            return hit
+    sig = _mk_sig(d, plain)
+    if key is not None:
+        if len(_SIG_MEMO) > 50000:
+            _SIG_MEMO.clear()
+        _SIG_MEMO[key] = sig
+    return sig
+
+
+def _mk_sig(d, plain=False):
     fn = Fn(d['fn'])
     if plain:
         params = [IP(p[0], KINDS[p[1]], default=IP.empty if p[2] is None else dflt_obj(p[2]),
